@@ -326,6 +326,27 @@ def rt_error(vm, ncp, lo, hi):
     return 'ok'
 
 
+def rt_long_value(vm, lo, hi):
+    """A byte string of every length lo..hi (an opaque run) inside a dictionary and a list: encode, decode, compare."""
+    value = vm.new_run('value', lo, hi, b'v')
+    key = vm.new_bytes('key', 1)
+    vm.assume(key != b'z')
+    try:
+        raw = bencode({key: [value, 7], b'z': value})
+    except Exception as e:
+        return 'VIOLATION: encoding a byte string raised %s' % type(e).__name__
+    try:
+        back = bdecode(raw)
+    except Exception as e:
+        return 'VIOLATION: an encoded byte string of some length does not decode back (%s)' % type(e).__name__
+    if not isinstance(back, dict) or len(back) != 2:
+        return 'VIOLATION: the decoded dictionary has other keys'
+    items = back.get(bytes(key)) if not isinstance(back.get(b'z'), list) else None
+    if not isinstance(items, list) or len(items) != 2 or items[0] != value or items[1] != 7 or back[b'z'] != value:
+        return 'VIOLATION: a byte string differs after the round trip'
+    return 'ok'
+
+
 def rt_compact(vm):
     ip = [vm.new_int('oct', 0, 255) for _ in range(4)]
     port = vm.new_int('port', -5, 70000)
@@ -397,6 +418,9 @@ def jobs(tier):
         out.append(dict(name=f'roundtrip-error-{ncp}', family='roundtrip-error', fn='rt_error', args=(ncp, 0, 0x10FFFF),
                         loop_bound=400, max_depth=40, cost=50 * 5 ** ncp,
                         bounds=dict(text_code_points=ncp, alphabet='every Unicode scalar value')))
+    for lo, hi in (((0, 1500),) if tier == 'quick' else ((0, 1500), (1501, 70000))):
+        out.append(dict(name=f'roundtrip-long-value-{lo}-{hi}', family='roundtrip', fn='rt_long_value', args=(lo, hi), loop_bound=400,
+                        max_depth=40, cost=100, bounds=dict(value_length=f'{lo}..{hi} (opaque content)'), must_reach=('ok',)))
     out.append(dict(name='compact-address', family='roundtrip', fn='rt_compact', args=(), loop_bound=400, max_depth=40,
                     cost=20, bounds=dict(octets='0..255', port='-5..70000'), must_reach=('ok', 'ok-refused')))
     return out
